@@ -33,6 +33,10 @@ fn main() {
         }
         return;
     }
+    if args.get(1).is_some_and(|a| a == "genversion") {
+        println!("{}", engine::GEN_VERSION);
+        return;
+    }
     if args.len() < 3 {
         usage();
     }
@@ -56,6 +60,16 @@ fn main() {
         }
         "saved" => engine::saved(prop, tier_of(&args[3])),
         "replay" => std::process::exit(engine::replay(prop, &args[3])),
+        "find" => {
+            let max: u64 = args.get(4).and_then(|s| s.parse().ok()).unwrap_or(200_000);
+            match engine::find_signature(prop, &args[3], seed, max) {
+                Some(i) => println!("{}", i.to_json()),
+                None => {
+                    eprintln!("signature {} not found in {max} cases", args[3]);
+                    std::process::exit(1)
+                }
+            }
+        }
         "fuzzseed" => {
             // `vcheck fuzzseed <ID> <dir>`: a few valid inputs as libFuzzer seed corpus
             let dir = std::path::Path::new(&args[3]);
